@@ -754,8 +754,8 @@ func (f *Frame) builtinAppend(cc *ssa.CallCommon, args []Val, st *State, rt type
 	dstArr := e.define("aparr", "Int", sIte(fits, "(s.arr "+s.S+")", fresh))
 	dstOff := e.define("apoff", "Int", sIte(fits, "(s.off "+s.S+")", "0"))
 	newCap := e.freshConst("apcap", "Int")
-	e.assume("true", fmt.Sprintf("(and (>= %s %s) (<= %s 4611686018427387904) (=> %s (= %s (s.cap %s))))", newCap, newLen, newCap, fits, newCap, s.S))
-	e.assume("true", fmt.Sprintf("(<= %s 4611686018427387904)", newLen))
+	e.assume(st.cond, fmt.Sprintf("(and (>= %s %s) (<= %s 4611686018427387904) (=> %s (= %s (s.cap %s))))", newCap, newLen, newCap, fits, newCap, s.S))
+	e.assume(st.cond, fmt.Sprintf("(<= %s 4611686018427387904)", newLen))
 	na := e.freshConst("arr", "(Array Int "+srt+")")
 	oldDst := fmt.Sprintf("(select %s %s)", h, dstArr)
 	// contents: [dstOff, dstOff+len(s)) = old s ; [dstOff+len(s), dstOff+newLen) = src ; elsewhere: old dst array (in place)
